@@ -377,3 +377,67 @@ pub fn valid_for(property: &Property<'_>, context: u8) -> bool {
         _ => PropertyContext::Will,
     })
 }
+
+/// Reply helpers of an inbound PUBLISH (C20): decode `buf`, build the `InboundPublish` the client would surface,
+/// and render its response topic, correlation data, the encoding of `reply(b"r").properties(user)` and the
+/// owned response target for one of a few fixed capacities selected by `sel`.
+pub fn reply_render(buf: &[u8], user: &[Property<'_>], sel: u8) -> String {
+    use crate::InboundPublish;
+    let mut out = String::new();
+    let Ok(ReceivedPacket::Publish(info)) = ReceivedPacket::from_buffer(buf) else {
+        out.push_str("NOTPUB");
+        return out;
+    };
+    let message = InboundPublish::new(info.topic.0, info.payload, info.properties, info.retain, info.qos);
+    out.push_str("rt=");
+    match message.response_topic() {
+        Some(t) => {
+            out.push('x');
+            hex(&mut out, t.as_bytes())
+        }
+        None => out.push('-'),
+    }
+    out.push_str(" cd=");
+    match message.correlation_data() {
+        Some(c) => {
+            out.push('x');
+            hex(&mut out, c)
+        }
+        None => out.push('-'),
+    }
+    out.push_str(" reply=");
+    match message.reply(&b"r"[..]) {
+        None => out.push_str("none"),
+        Some(publication) => out.push_str(&encode_publish(4096, publication.properties(user), None, false)),
+    }
+    out.push_str(" owned=");
+    fn owned<const T: usize, const C: usize>(out: &mut String, m: &InboundPublish<'_>) {
+        match m.reply_owned::<T, C>() {
+            Ok(None) => out.push_str("none"),
+            Err(_) => out.push_str("ERR"),
+            Ok(Some(target)) => {
+                out.push_str("t=x");
+                hex(out, target.topic().as_bytes());
+                out.push_str(" c=");
+                match target.correlation_data() {
+                    Some(c) => {
+                        out.push('x');
+                        hex(out, c)
+                    }
+                    None => out.push('-'),
+                }
+            }
+        }
+    }
+    match sel {
+        0 => owned::<0, 0>(&mut out, &message),
+        1 => owned::<1, 1>(&mut out, &message),
+        2 => owned::<4, 4>(&mut out, &message),
+        3 => owned::<8, 2>(&mut out, &message),
+        4 => owned::<2, 8>(&mut out, &message),
+        5 => owned::<16, 16>(&mut out, &message),
+        6 => owned::<64, 64>(&mut out, &message),
+        _ => owned::<128, 128>(&mut out, &message),
+    }
+    out
+}
